@@ -1,10 +1,164 @@
 import DFV.JsonField
+import DFV.Model.C03
+/-! driver ops of property C03 (JSON glue: trusted correspondence code, not model) -/
 namespace DFV.Drv
-open Lean DFV
+open Lean DFV DFV.C03
 
-/-- driver ops of property C03 (stub: no ops yet) -/
+namespace C03J
+
+/-- a Gaussian rational travels as `"re"` or `"re|im"` -/
+def gqOfJson (j : Json) : R GQ :=
+  match j with
+  | .str s =>
+    match s.splitOn "|" with
+    | [a] => do pure ⟨← ratOfString a, 0⟩
+    | [a, b] => do pure ⟨← ratOfString a, ← ratOfString b⟩
+    | _ => .error s!"bad complex {s}"
+  | _ => do pure ⟨← ratOfJson j, 0⟩
+
+def gqToJson (z : GQ) : Json :=
+  if z.im = 0 then .str (ratToString z.re) else .str (ratToString z.re ++ "|" ++ ratToString z.im)
+
+def kindOfJson (j : Json) : R Kind := do
+  match ← strOfJson j with
+  | "int" => pure .int
+  | "float" => pure .float
+  | "complex" => pure .complex
+  | s => throw s!"bad kind {s}"
+
+def kindToJson : Kind → Json
+  | .int => .str "int"
+  | .float => .str "float"
+  | .complex => .str "complex"
+
+def vmapOfJson (j : Json) (k : String) : R VMap :=
+  match fldOpt j k with
+  | none => pure []
+  | some v => listOf (fun e => do
+      let a ← arr e
+      match a.toList with
+      | [x, .null] => pure (← strOfJson x, none)
+      | [x, y] => pure (← strOfJson x, some (← strOfJson y))
+      | _ => throw "pair expected") v
+
+def vmapToJson (m : VMap) : Json :=
+  listJ (fun (p : String × Option String) => Json.arr #[.str p.1, optStrJ p.2]) m
+
+/-- field: data flat in C order over `mesh.n ++ [nvdim]` -/
+def cfOfJson (j : Json) : R CF := do
+  let mesh ← meshOfJson (← fld j "mesh")
+  let nvdim ← natOfJson (← fld j "nvdim")
+  let xs ← listOf gqOfJson (← fld j "data")
+  if xs.length ≠ natProd mesh.n * nvdim then throw s!"field data length {xs.length}"
+  let valid ← listOf boolOfJson (← fld j "valid")
+  if valid.length ≠ natProd mesh.n then throw "valid length"
+  let vdims ← optStrsOfJson j "vdims"
+  let vmap ← vmapOfJson j "vmap"
+  let unit ← optStrOfJson j "unit"
+  let kind ← kindOfJson (← fld j "kind")
+  pure { mesh, nvdim, data := NDA.ofList (mesh.n ++ [nvdim]) xs GQ.zero,
+         valid := NDA.ofList mesh.n valid false, vdims, vmap, unit, kind }
+
+def cfToJson (f : CF) : Json :=
+  Json.mkObj [("mesh", meshToJson f.mesh), ("nvdim", .num (JsonNumber.fromNat f.nvdim)),
+    ("shape", natsJ f.data.shape), ("vshape", natsJ f.valid.shape),
+    ("data", listJ gqToJson f.data.toList), ("valid", boolsJ f.valid.toList),
+    ("vdims", optStrsJ f.vdims), ("vmap", vmapToJson f.vmap), ("unit", optStrJ f.unit),
+    ("kind", kindToJson f.kind)]
+
+partial def exprOfJson (j : Json) : R Expr := do
+  match ← strOfJson (← fld j "t") with
+  | "leaf" => pure (.leaf (← natOfJson (← fld j "k")))
+  | "num" =>
+    pure (.opd (.num (← gqOfJson (← fld j "z")) (← kindOfJson (← fld j "kind")) (← boolOfJson (← fld j "np"))))
+  | "arr" =>
+    let shape ← nats j "shape"
+    let xs ← listOf gqOfJson (← fld j "data")
+    if xs.length ≠ natProd shape then throw "arr data length"
+    pure (.opd (.arr (NDA.ofList shape xs GQ.zero) (← kindOfJson (← fld j "kind")) (← boolOfJson (← fld j "np"))))
+  | "un" =>
+    let u ← match ← strOfJson (← fld j "op") with
+      | "pos" => pure UnOp.pos | "neg" => pure UnOp.neg | "abs" => pure UnOp.abs
+      | "real" => pure UnOp.real | "imag" => pure UnOp.imag | "conj" => pure UnOp.conj
+      | "absP" => pure UnOp.absP | "phase" => pure UnOp.phase
+      | "unegative" => pure UnOp.unegative | "upositive" => pure UnOp.upositive
+      | "uabsolute" => pure UnOp.uabsolute | "usquare" => pure UnOp.usquare
+      | "uconjugate" => pure UnOp.uconjugate | "usign" => pure UnOp.usign
+      | s => throw s!"bad unary op {s}"
+    pure (.un u (← exprOfJson (← fld j "e")))
+  | "bin" =>
+    let b ← match ← strOfJson (← fld j "op") with
+      | "add" => pure BinOp.add | "sub" => pure BinOp.sub | "mul" => pure BinOp.mul
+      | "div" => pure BinOp.div | "pow" => pure BinOp.pow | "dot" => pure BinOp.dot
+      | "cross" => pure BinOp.cross | "shl" => pure BinOp.shl | "angle" => pure BinOp.angle
+      | "uadd" => pure BinOp.uadd | "usub" => pure BinOp.usub | "umul" => pure BinOp.umul
+      | "udiv" => pure BinOp.udiv | "umax" => pure BinOp.umax | "umin" => pure BinOp.umin
+      | "upow" => pure BinOp.upow
+      | s => throw s!"bad binary op {s}"
+    pure (.bin b (← exprOfJson (← fld j "l")) (← exprOfJson (← fld j "r")))
+  | s => throw s!"bad expr tag {s}"
+
+/-- integer square root (Newton iteration with fuel) -/
+def isqrt (n : Nat) : Nat := go 200 n
+where
+  go : Nat → Nat → Nat
+    | 0, x => x
+    | fuel + 1, x =>
+      if x = 0 then 0
+      else
+        let y := (x + n / x) / 2
+        if y < x then go fuel y else x
+
+/-- exact rational square root, `other` when the argument is not a perfect square -/
+def sqrtOr (other : Rat) (q : Rat) : Rat :=
+  if q < 0 then other
+  else
+    let n := isqrt q.num.toNat
+    let d := isqrt q.den
+    if n * n = q.num.toNat ∧ d * d = q.den then (n : Rat) / (d : Rat) else other
+
+def mkEnv (fields : List CF) (mode : String) (other : Rat) : Env :=
+  match mode with
+  | "id" => { fields, sq := id, acos := id, arg := fun _ => 0 }
+  | "one" => { fields, sq := fun _ => 1, acos := id, arg := fun _ => 0 }
+  | _ => { fields, sq := sqrtOr other, acos := id, arg := fun _ => 0 }
+
+/-- executable statement of the per-cell theorems on one result: every cell of the
+code-shaped result equals the per-cell evaluation, validity equals `validCell` -/
+def specHolds (env : Env) (e : Expr) (g : CF) : Bool :=
+  (indicesC g.mesh.n).all fun i =>
+    decide (cellOf g.data i g.nvdim = evalCell env e i) && (g.valid.get i == validCell env e i)
+
+end C03J
+open C03J
+
+/-- driver ops of property C03 -/
 def c03 (op : String) (j : Json) : Option (R Json) :=
   match op with
+  | "eval" => some do
+      let fields ← listOf cfOfJson (← fld j "fields")
+      let e ← exprOfJson (← fld j "expr")
+      let mode ← match fldOpt j "sq" with
+        | some s => strOfJson s
+        | none => pure "exact"
+      let env := mkEnv fields mode 0
+      match evalF env e with
+      | .error er => pure (errJ er)
+      | .ok (.raw _) => pure (Json.mkObj [("ok", Json.mkObj [("raw", .bool true)])])
+      | .ok (.fld g) =>
+        -- a second evaluation with a different fallback tells whether an inexact root was used
+        let inexact := match evalF (mkEnv fields mode 1) e with
+          | .ok (.fld g2) => g.data.toList != g2.data.toList
+          | _ => true
+        pure (Json.mkObj [("ok", ((cfToJson g).setObjVal! "inexact" (.bool (mode == "exact" && inexact))).setObjVal!
+          "spec" (.bool (specHolds env e g)))])
+  | "stack" => some do
+      let f ← cfOfJson (← fld j "field")
+      pure (resJ cfToJson (stackComps f))
+  | "comp" => some do
+      let f ← cfOfJson (← fld j "field")
+      let l ← strOfJson (← fld j "label")
+      pure (resJ cfToJson (getComp f l))
   | _ => none
 
 end DFV.Drv
